@@ -219,6 +219,16 @@ def run(ctx, vlib):
                 failing.append(dict(driver="stream", case=c[:2000], implementation=a[:600], model=b[:600], judge=v, why=why))
         elif a != b and len(diffs) < 20:
             diffs.append(dict(driver="stream", case=c[:2000], implementation=a[:600], model=b[:600], judge=v, why=why))
+    # shrink what failed (bounded effort), keep the original line too
+    for rec in failing[:5]:
+        if rec["case"].startswith("esr ") and rec["case"] in emeta and len(rec["case"]) < 1900:
+            small = S.shrink_esr(vlib, impl, rec["case"], emeta[rec["case"]])
+            if small != rec["case"]:
+                rec["original_case"] = rec["case"]
+                rec["case"] = small
+                rec["implementation"] = vlib.run_driver(impl, [small], jobs=1)[0]
+                rec["model"] = vlib.run_driver(model, [small], jobs=1)[0]
+                rec["why"] = S.judge_esr(small, rec["implementation"], emeta[rec["original_case"]])[1]
     samples = [dict(case=cases[i][:300], implementation=oi[i][:200], model=om[i][:200]) for i in (0, len(corpus) + 5, len(corpus) + len(dcases) + 5)]
     s0 = sweeps[len(sweeps) // 2]
     samples.append(dict(sweep="esrcuts %d %d %s %s <%d bytes> %d %d" % (s0[0], s0[1], s0[2], s0[3], len(s0[4]) // 2, s0[5], s0[6])))
